@@ -261,6 +261,18 @@ pub fn run(o: &Opts) -> i32 {
     // fixed hostile histories first (one case): late correct hint after top-level forks, refused hints,
     // reset after the last-piece hash was active, small hint then large undeclared input
     streams.push(Stream::new("hostile-histories", 1, move |_i, rng: &mut Rng, l: &mut Local| {
+        // the error type's own classification, for every variant (finalization errors included)
+        for (e, too_large) in [
+            (GeneratorError::FixedSizeMismatch, false),
+            (GeneratorError::FixedSizeTooLarge, true),
+            (GeneratorError::InputSizeTooLarge, true),
+            (GeneratorError::OutputOverflow, false),
+        ] {
+            l.eval(1);
+            l.check(e.is_size_too_large_error() == too_large && !format!("{}", e).is_empty(), "error-classification", || {
+                (format!("C12|is_size_too_large_error|{:?}", e), format!("{:?}.is_size_too_large_error() = {} (Display: {:?})", e, e.is_size_too_large_error(), format!("{}", e)))
+            });
+        }
         let top: Vec<u8> = wref[30][0].to_vec();
         let mut h = Hist { g: Generator::new(), m: GModel::new(), log: Vec::new(), eliminated_before_reset: false, midstream_hint: false, resets: 0 };
         let r = guard(|| {
